@@ -3078,6 +3078,40 @@ def c01_keep(ctx):
     return out
 
 
+@rule('C02-EAGERIDX', 'a transformation that materialises its input does not return a type whose *_with_index terminals report positions')
+def c02_eageridx(ctx):
+    """`find_with_index` / `first_with_index` report the position the kernel numbers elements by: the position in the source the
+    computation was *built on*.  A transformation that collects its input into an intermediate vector and restarts the pipeline
+    from it (the eager sites of D4) changes that source; if its return type is a concrete `Par` type with inherent *_with_index
+    methods, the index a user gets is a position in the intermediate vector, not in the original source."""
+    out = RuleOut('C02-EAGERIDX')
+    F = ctx.facts
+    S = ctx.slots
+    idx_types = {}
+    for tn in S.inherent_terminals:
+        b = F.bodies[tn]
+        if 'with_index' in (b.d.get('method') or key_of(b)):
+            head = key_of(b).rsplit('::', 1)[0]
+            idx_types.setdefault(head, []).append(key_of(b).rsplit('::', 1)[1])
+    n = 0
+    for tn in sorted(set(S.transformations) | set(getattr(S, 'inherent_transformations', ()) or ())):
+        b = F.bodies[tn]
+        n += 1
+        mat = [t for _, t in b.calls() if method(t) in ('collect_vec', 'collect', 'collect_x', 'collect_into') and not decl(t).startswith(ITER)]
+        if not mat:
+            continue
+        rty = b.d.get('ret_ty') or ''
+        head = strip_generics(rty.split('<', 1)[0]) if rty else ''
+        hit = [h for h in idx_types if head == h or head.endswith('::' + h.split('::')[-1]) and h.split('::')[-1] == head.split('::')[-1]]
+        key = 'C02-EAGERIDX/%s' % key_of(b)
+        out.inst(key, not hit, 'materialises through %s; returns %s' % (method(mat[0]), rty[:60]), sample={'transformation': key_of(b), 'returns': rty[:120]})
+        if hit:
+            out.fail(key, '%s collects its input into an intermediate vector and returns %s, whose %s report positions in that vector: after this transformation a reported index is no longer the element\'s position in the original source'
+                     % (key_of(b), rty[:70], ' / '.join(sorted(idx_types[hit[0]]))), b.where(mat[0].get('line')))
+    out.floor('transformations', n, 20 if not ctx.fixture else 0)
+    return out
+
+
 # ======================================================================================= C03-THREAD / C04-THREAD / C04-CHAIN
 def from_current_pull(ctx, t):
     """does the term derive from an element / chunk delivered by a pull (or from the whole-source stream)"""
